@@ -2161,3 +2161,77 @@ func (c *Ctx) translateStoreOrErr(rule string) int {
 	}
 	return 1
 }
+
+// ---------------------------------------------------------------------------------------------
+// SNAPSHOT (C03): neigh and br of a node are parallel slices. A loop that ranges over a snapshot
+// (make + copy) of one of them does so because its body edits the node's adjacency; reading the
+// other, LIVE slice of the same node at the loop index then pairs position i of the old order with
+// position i of the new one. Inside such a loop the node's slices may only be indexed by the loop
+// index through snapshots.
+func (c *Ctx) snapshotParallel(rule string, funcs []*FuncInfo) (n, nviol int) {
+	clause := "symmetric adjacency ... node, tip and branch enumerations agree"
+	for _, fi := range funcs {
+		if fi.Decl.Body == nil {
+			continue
+		}
+		info := fi.Pkg.TypesInfo
+		// snapshots: local S with copy(S, X.neigh / X.br) (getter forms unified by canon)
+		snapOf := map[types.Object]string{} // local -> canon of the live slice copied
+		for _, call := range callsIn(fi.Decl.Body, true) {
+			id, ok := unparen(call.Fun).(*ast.Ident)
+			if !ok || len(call.Args) != 2 {
+				continue
+			}
+			if b, ok := info.Uses[id].(*types.Builtin); !ok || b.Name() != "copy" {
+				continue
+			}
+			dst := identObj(info, call.Args[0])
+			src := c.canon(info, call.Args[1], nil)
+			if dst != nil && (strings.HasSuffix(src, ".neigh") || strings.HasSuffix(src, ".br")) {
+				snapOf[dst] = src
+			}
+		}
+		if len(snapOf) == 0 {
+			continue
+		}
+		ast.Inspect(fi.Decl.Body, func(m ast.Node) bool {
+			rs, ok := m.(*ast.RangeStmt)
+			if !ok || rs.Key == nil {
+				return true
+			}
+			s := identObj(info, rs.X)
+			live, isSnap := snapOf[s]
+			if !isSnap {
+				return true
+			}
+			idx := identObj(info, rs.Key)
+			if idx == nil {
+				return true
+			}
+			n++
+			owner := live[:strings.LastIndex(live, ".")]
+			key := fmt.Sprintf("%s/range %s (snapshot of %s)", funcName(fi.Obj), s.Name(), live)
+			bad := token.NoPos
+			badExpr := ""
+			ast.Inspect(rs.Body, func(q ast.Node) bool {
+				ie, ok := q.(*ast.IndexExpr)
+				if !ok || identObj(info, ie.Index) != idx {
+					return true
+				}
+				x := c.canon(info, ie.X, nil)
+				if (x == owner+".neigh" || x == owner+".br") && !bad.IsValid() {
+					bad, badExpr = ie.Pos(), c.src(ie)
+				}
+				return true
+			})
+			if bad.IsValid() {
+				nviol++
+				c.Violation(rule, key, bad, fmt.Sprintf("the loop ranges over a snapshot of %s (its body edits the node) but reads the live slice %s at the loop index: after an edit of an earlier neighbour, position %s of the live slice no longer belongs to the neighbour at position %s of the snapshot", live, badExpr, idx.Name(), idx.Name())).Clause = clause
+			} else {
+				c.OK(rule, key, rs.Pos(), "the node's parallel slices are read at the loop index through snapshots only")
+			}
+			return true
+		})
+	}
+	return
+}
